@@ -44,7 +44,7 @@ def build_jobs(tier, seed, kf_on):
         ordered = ops.node_name == "SelectColumnsNode"
         schema = {t: progs.SCHEMA[t] for t in tables}
         vecs = [{t: 0 for t in tables}, {t: (2 if i < 2 else 1) for i, t in enumerate(tables)}]
-        if len(tables) > 1:
+        if len(tables) > 1 and (tier != "quick" or "+" not in label):
             vecs.append({t: (0 if i == 0 else 1) for i, t in enumerate(tables)})
             vecs.append({t: (1 if i == 0 else 0) for i, t in enumerate(tables)})
         if tier == "thorough":
@@ -52,8 +52,11 @@ def build_jobs(tier, seed, kf_on):
         for rows in vecs:
             rid = ",".join(f"{t}={n}" for t, n in rows.items())
             jobs.append(simple.tv_job(f"{label}:pandas|sqlite@{rid}", schema, rows, {"kind": "pandas", "src": src}, {"kind": "sql", "src": src, "dialect": "sqlite"},
-                                      kf_on, tier, compare="cols", check_cols={"cols": declared, "ordered": ordered}, max_paths=400 if tier == "quick" else 2000, wall_s=20))
+                                      kf_on, tier, compare="cols", check_cols={"cols": declared, "ordered": ordered}, max_paths=40 if tier == "quick" else 1500, wall_s=20,
+                                      validate=(1 if rows == vecs[0] or tier != "quick" else 0)))
         rows = {t: 1 for t in tables}
+        if tier == "quick" and "+" in label and hash(label) % 4:
+            continue  # quick tier: PostgreSQL text of a quarter of the 2-step programs (all of them in the thorough tier)
         jobs.append(simple.tv_job(f"{label}:postgresql-model@1", schema, rows, {"kind": "sql", "src": src, "dialect": "postgresql"},
                                   {"kind": "sql", "src": src, "dialect": "postgresql", "options": {"use_with": False}}, kf_on, tier, compare="cols",
                                   check_cols={"cols": declared, "ordered": ordered}, validate=0, max_paths=100, wall_s=10))
